@@ -87,6 +87,12 @@ int main(int argc, char **argv) {
             auto &e = reg[c];
             int fam = e.tier / 10;   // bit 0: seam family, bit 1: blocks family, bit 2: density family
             bool wide = e.key_class >= 4;
+            // capacity family: segment counts just below what build() reserves, for every cluster count in a window (the segment array
+            // grows while an upper level is being built)
+            if (e.eps >= 2 && e.eps <= 16 && e.eps_rec >= 1) {
+                long lo = e.eps == 2 ? 6 : 2 * long(e.eps * e.eps), hi = lo + (e.eps == 2 ? 74 : 150);
+                for (long c0 = lo; c0 < hi; c0 += 25) { Task t; t.cfg = c; t.kind = 8; t.word_lo = c0; t.word_hi = std::min(hi, c0 + 25); tasks.push_back(t); }
+            }
             if (asan_quick) {
                 static const char *few[] = {"pgm<u64,1,1,float>", "pgm<f64,1,1,double>", "compressed<u64,1,1,float>", "bucketing<u64,1,3,0>", "eliasfano<u64,1,float>"};
                 bool sel = false; for (auto *n : few) if (!strcmp(n, e.name)) sel = true;
@@ -157,8 +163,8 @@ int main(int argc, char **argv) {
                     for (long b = 0; b < ks::NUM_BLOCK_IDS; b += 3) { Task t; t.cfg = c; t.kind = 2; t.nblocks = 2; t.rep = rep; t.b0_lo = b; t.b0_hi = b + 3; tasks.push_back(t); }
             }
         }
-        fam_bounds = thorough ? "; span family (clusters spread over the whole domain of the key type, 18 cluster counts x 9 end offsets, every configuration); seam family n=32768+{0,1,7}, chunks {2,3,4,5,7,16,19,20}, all 4096 window words at every seam (and at the first/last seam alone); blocks family: 1 block x rep {1,50,400}, 2 blocks x rep {1,20}; density family: all 1024 five-digit words x 300 clusters"
-                              : "; span family (clusters spread over the whole domain of the key type, 11 cluster counts x 9 end offsets, every configuration); seam family n=32768, chunks {2,20}, all 4096 window words at every seam; blocks family: 1 block x rep {1,50}, 2 blocks x rep 1; density family (also placed at 3/4 of the key domain and, for signed keys, at 3/4 of the negative half, for three words; single blocks of 4090..4101 and 8186..8197 clusters): all 256 four-digit words of gap multipliers x 300 clusters (several segments per upper level), skewed variants with a 3x/30x jump, and 44000-cluster variants (plain, and 'chunk-tail' with a key-space jump 1/3 clusters before every chunk boundary over a zig-zag background) whose upper levels are built by the chunked builder; long-run family: a duplicate run from around a chunk start to around a chunk end, every start/end offset";
+        fam_bounds = thorough ? "; capacity family (clusters of Epsilon^2+1 keys, every cluster count in a window of 75-150 values: the segment array grows during the construction of an upper level); span family (clusters spread over the whole domain of the key type, 18 cluster counts x 9 end offsets, every configuration); seam family n=32768+{0,1,7}, chunks {2,3,4,5,7,16,19,20}, all 4096 window words at every seam (and at the first/last seam alone); blocks family: 1 block x rep {1,50,400}, 2 blocks x rep {1,20}; density family: all 1024 five-digit words x 300 clusters"
+                              : "; capacity family (clusters of Epsilon^2+1 keys, every cluster count in a window of 75-150 values: the segment array grows during the construction of an upper level); span family (clusters spread over the whole domain of the key type, 11 cluster counts x 9 end offsets, every configuration); seam family n=32768, chunks {2,20}, all 4096 window words at every seam; blocks family: 1 block x rep {1,50}, 2 blocks x rep 1; density family (also placed at 3/4 of the key domain and, for signed keys, at 3/4 of the negative half, for three words; single blocks of 4090..4101 and 8186..8197 clusters): all 256 four-digit words of gap multipliers x 300 clusters (several segments per upper level), skewed variants with a 3x/30x jump, and 44000-cluster variants (plain, and 'chunk-tail' with a key-space jump 1/3 clusters before every chunk boundary over a zig-zag background) whose upper levels are built by the chunked builder; long-run family: a duplicate run from around a chunk start to around a chunk end, every start/end offset";
     }
 
     if (asan_quick) std::stable_sort(tasks.begin(), tasks.end(), [](const Task &a, const Task &b) { return (a.kind != 0) > (b.kind != 0); });   // few large-input cases first
@@ -183,6 +189,12 @@ int main(int argc, char **argv) {
         } else if (t.kind == 6) {
             for (long c = t.word_lo; c < t.word_hi && !run.deadline_passed(); ++c) {
                 ks::FamilySpec s; s.kind = "density"; s.chunks = 1; s.rep = c; s.width = 1; s.word = c % 4;
+                e.family(run, cn, prop, s);
+            }
+        } else if (t.kind == 8) {
+            for (long c = t.word_lo; c < t.word_hi && !run.deadline_passed(); ++c) for (long w : {0L, 5L}) {
+                ks::FamilySpec s; s.kind = "capacity"; s.chunks = 1; s.rep = c; s.n = 0; s.word = w;
+                if (c == t.word_lo + 7 && w == 0) run.sample(std::string("cfg=") + e.name + " family=" + s.str());
                 e.family(run, cn, prop, s);
             }
         } else if (t.kind == 7) {
